@@ -38,13 +38,25 @@ ORACLES = {
 
 
 def run_oracles(prop, timeout=1500):
-    """-> dict(ran, cmd, wall_s, tests, failed:[{test, witness, message}], error)"""
+    """-> dict(ran, cmd, wall_s, tests, failed:[{test, witness, message}], error)
+    The oracles are first built with the private-state accessors (feature verif-hooks); when the crate no longer
+    compiles with them (a change of representation), the tests that use only the public API are still run
+    (feature verif) and the loss of the hook-based tests is recorded."""
+    r = _run_oracles(prop, "verif-hooks", timeout)
+    if not r.get("ran") and "does not compile" in r.get("reason", ""):
+        r2 = _run_oracles(prop, "verif", timeout)
+        r2["hooks_disabled"] = r["reason"]
+        return r2
+    return r
+
+
+def _run_oracles(prop, feature, timeout):
     filters = ORACLES.get(prop)
     if not filters:
         return {"ran": False, "reason": "no executable oracle for this property"}
     if not os.path.exists(os.path.join(REPO, "Cargo.toml")) or not os.path.exists(os.path.join(REPO, "tests", "verif_replay.rs")):
         return {"ran": False, "reason": f"{REPO} is not a cargo project with tests/verif_replay.rs"}
-    cmd = ["cargo", "test", "--offline", "--features", "verif", "--test", "verif_replay", "--"] + filters + ["--nocapture", "--test-threads", "4"]
+    cmd = ["cargo", "test", "--offline", "--features", feature, "--test", "verif_replay", "--"] + filters + ["--nocapture", "--test-threads", "4"]
     t0 = time.time()
     env = dict(os.environ, CARGO_NET_OFFLINE="true", RUST_BACKTRACE="0")
     try:
@@ -55,7 +67,7 @@ def run_oracles(prop, timeout=1500):
     res = {"ran": True, "cmd": "cd %s && %s" % (REPO, " ".join(cmd)), "wall_s": round(time.time() - t0, 1), "failed": [], "tests": []}
     if "error: could not compile" in out or re.search(r"^error(\[E\d+\])?:", out, re.M) and "test result" not in out:
         res["ran"] = False
-        res["reason"] = "the crate or the oracle file does not compile with --features verif: " + "\n".join(l for l in out.split("\n") if l.startswith("error"))[:600]
+        res["reason"] = ("the crate or the oracle file does not compile with --features %s: " % feature) + "\n".join(l for l in out.split("\n") if l.startswith("error"))[:600]
         return res
     witnesses = re.findall(r"^WITNESS (.*)$", out, re.M)
     for m in re.finditer(r"^test (\S+) \.\.\. (\w+)", out, re.M):
@@ -66,7 +78,7 @@ def run_oracles(prop, timeout=1500):
         w = None
         for cand in witnesses:
             key = short.split("_")[1] if short.startswith("oracle_") else None
-            if key and ('"oracle":"%s"' % key) in cand:
+            if key and ('"oracle":"%s' % key) in cand:
                 w = cand
                 break
         msg = ""
